@@ -379,6 +379,8 @@ type c12Request struct {
 	Expect  c12Expect `json:"expect"`
 	Timeout *string   `json:"timeout_header,omitempty"`
 	Data    string    `json:"-"`
+	// BlankName: the x-test-case-name header is present but empty (only with Name == "")
+	BlankName bool `json:"blank_test_name_header,omitempty"`
 }
 
 func c12Matching(s c12Server, a c12Actual) c12Expect {
@@ -619,6 +621,9 @@ func c12Build(ctx context.Context, s c12Server, addr string, r *c12Request) (*ht
 	}
 	if a.Trailers {
 		req.Trailer = http.Header{"X-C12-Trailer": []string{"t"}}
+	}
+	if r.Name == "" && r.BlankName {
+		req.Header["X-Test-Case-Name"] = []string{""} // present, but it names nothing
 	}
 	if r.Name != "" {
 		req.Header.Set("X-Test-Case-Name", r.Name)
@@ -1153,10 +1158,17 @@ func c12MatrixRun(t *testing.T, tape *simrt.Tape, o simwork.Opts) *simwork.Resul
 				_ = t2
 				step.Reply = repA.String() + " / " + repB.String()
 			case "no-test-name":
-				r := c12Request{Name: "", Actual: a, Expect: exp, Data: "anon"}
+				r := c12Request{Name: "", Actual: a, Expect: exp, Data: "anon", BlankName: tape.Bool(1, 3, "blank-name-header")}
+				if r.BlankName {
+					e.res.Probes["blank-test-name-header"]++
+				}
 				step.Requests = append(step.Requests, r)
+				_, linesBefore := e.printer.count("")
 				rep := e.node.send(&r)
 				c12Settle()
+				if _, linesAfter := e.printer.count(""); linesAfter != linesBefore {
+					e.violate("c12/no-test-name-feedback", "server %s: a request that names no test (%+v, blank header: %v) produced feedback lines: %s", e.srv, a, r.BlankName, e.printer.tail(linesBefore))
+				}
 				step.Reply = rep.String()
 				switch {
 				case rep.Err != "":
